@@ -600,6 +600,9 @@ def r7_4(ctx: Ctx, g: Func, f: Func, rule="R7.4"):
     dirvar = None
     from ..pat import single_defs
     sd_ = single_defs(g.node)
+    from ..pat import unpacked_defs
+    for k_, v_ in unpacked_defs(g.node).items():
+        sd_.setdefault(k_, v_)
     _SPEC_FN[0] = g.node
     for s in crosses:
         gs = guards_of(s, pm)
